@@ -1,4 +1,4 @@
-import Lemmas.FixedTextFloat
+import Lemmas.FixedTextFloatGo
 import Lemmas.FixedTextCheckedAs
 import Lemmas.FixedTextLink
 import Generated.Facts
@@ -426,7 +426,11 @@ theorem as_eq_checkedAs64 (mult : Int) (t : Target) (raw n : Int) (h : checkedAs
 theorem as_eq_checkedAs128 (mult : Int) (t : Target) (raw n : Int) (h : checkedAs128 mult t raw = some n) :
     as128 mult t raw = n := ((checkedAs_int_iff128 mult t raw n).mp h).1.symm
 
-/-! ## As / CheckedAs, float targets — reduced to the contract of strconv
+/-! ## As / CheckedAs, float targets — schematic form over uninterpreted stdlib functions
+
+(These four theorems are stated over PARAMETERS `parseFloat`, `formatFloat`, `quo`; they show how the clause follows
+from named contracts of the stdlib functions and do not by themselves carry the clause: nothing executes them.  The
+executed instance follows in the next section.)
 
 `checkedAsFloat64` / `checkedAsFloat128` transcribe the float branch of `CheckedAs` with the stdlib functions as
 parameters.  `StrconvContract` names what is assumed of them: `ParseFloat` is correctly rounded (`parse_nearest`, over
@@ -512,6 +516,77 @@ theorem as_eq_checkedAs_float {F : Type} (parseFloat : Str → F) (formatFloat :
 /-- non-vacuity of the contract: it is satisfiable (a one-point float type) -/
 example : StrconvContract (F := Unit) (fun _ => ()) (fun _ => []) (fun _ _ _ => ()) (fun _ => []) :=
   ⟨fun _ _ _ _ _ => rfl, fun _ => rfl, fun _ _ _ _ => rfl⟩
+
+/-! ## As / CheckedAs, float targets — the instance the driver runs
+
+`checkedAsF64 bits` / `checkedAsF128 bits` are `checkedAsFloat64/128` at `F := GoSem.F64` with the executable
+`parseFloatGo` (nearest float of the target width to the denoted rational, `GoSem.F64.ofRat` / `Fixed.round32`),
+`formatFloatGo` (first text with 1, 2, … significant digits that parses back) and `quoGo` (the C03 model of the
+128-bit quotient).  The driver runs exactly these definitions against `As` / `CheckedAs` of the code (op `cfm`), and
+`parseFloatGo` / `formatFloatGo` against `strconv.ParseFloat` / `strconv.FormatFloat` themselves (ops `pf`, `ff`), so a
+regression of the float branch (wrong format verb, wrong bit size, a float detour) shows as a model/code mismatch.
+What is NOT proved: that `formatFloatGo` is minimal (no shorter text parses back) and that `ofRat` is the nearest float
+(C02 validates the latter against the hardware); both are tied to strconv by the `pf` / `ff` streams. -/
+
+/-- `ParseFloat(String())` is `nearestDec` of the exact value: `N/10^k` with `N·10^(p−k) = |raw|` -/
+theorem parseFloat_toString (bits p : Nat) (raw : Int) :
+    parseFloatGo bits (toStr (10^p) raw) = nearestDec bits (decide (raw < 0)) (decOf p raw).1 (decOf p raw).2 ∧
+    (decOf p raw).2 ≤ p ∧ (decOf p raw).1 * 10^(p - (decOf p raw).2) = raw.natAbs :=
+  ⟨parseFloatGo_toStr bits p raw, decOf_value p raw⟩
+
+/-- the text `formatFloatGo` returns parses back to the float (round trip, by construction of the search) -/
+theorem formatFloat_roundtrip (bits : Nat) (x : Flt) (t : Str) (h : formatFloatGo bits x = t) (hne : t ≠ [])
+    (hb : DecBytes t) : parseFloatGo bits t = x :=
+  formatFloatGo_roundtrip bits x t h hne hb
+
+/-- **f64, float targets, executed instance**: CheckedAs returns `x` ⇔ `x` is the float (of the target width) nearest
+    to the exact value raw/10^p and its shortest round-trip text is the number's own text -/
+theorem checkedAs_float_go64 (bits p : Nat) (raw : Int) (x : Flt) :
+    checkedAsF64 bits (10^p) raw = some x ↔
+      (x = nearestDec bits (decide (raw < 0)) (decOf p raw).1 (decOf p raw).2 ∧
+       formatFloatGo bits x = toStr (10^p) raw) := by
+  unfold checkedAsF64 checkedAsFloat64 asFloat64
+  simp only [parseFloatGo_toStr]
+  constructor
+  · intro hh
+    split at hh
+    · cases hh
+    · rename_i hne
+      cases hh
+      exact ⟨rfl, by_contra fun hc => hne hc⟩
+  · rintro ⟨rfl, hs⟩
+    rw [if_neg (fun hc => hc hs)]
+
+/-- **f128, float targets, executed instance, soundness**: whatever the 128-bit quotient does, a success returns the
+    float nearest to the exact value, and its shortest round-trip text is the number's own text (uses only the round
+    trip of `formatFloatGo`) -/
+theorem checkedAs_float_go128_sound (bits p : Nat) (raw : Int) (x : Flt)
+    (hx : checkedAsF128 bits (10^p) raw = some x) :
+    x = nearestDec bits (decide (raw < 0)) (decOf p raw).1 (decOf p raw).2 ∧
+    formatFloatGo bits x = toStr (10^p) raw := by
+  unfold checkedAsF128 checkedAsFloat128 asFloat128 at hx
+  rw [toStr128_eq] at hx
+  simp only at hx
+  split at hx
+  · cases hx
+  · rename_i hne
+    cases hx
+    have heq : formatFloatGo bits (quoGo bits raw (10^p)) = toStr (10^p) raw := by_contra fun hc => hne hc
+    refine ⟨?_, heq⟩
+    rw [← parseFloatGo_toStr,
+      formatFloatGo_roundtrip bits _ _ heq (toStr_ne_nil p raw) (toStr_decBytes p raw)]
+
+/-- As returns the same value whenever CheckedAs succeeds (executed instance) -/
+theorem as_eq_checkedAs_float_go (bits : Nat) (mult raw : Int) (x : Flt) :
+    (checkedAsF64 bits mult raw = some x → asF64 bits mult raw = x) ∧
+    (checkedAsF128 bits mult raw = some x → asF128 bits mult raw = x) :=
+  as_eq_checkedAs_float (parseFloatGo bits) (formatFloatGo bits) (quoGo bits) mult raw x
+
+/-- non-vacuity over F64: 1.15 (D2) is accepted as the float64 0x3ff2666666666666; 0.1 (D1, f128) as the float32
+    0x3dcccccd; 9007199254740993.0 (2^53+1, D1) is rejected -/
+example : checkedAsF64 64 100 115 = some (GoSem.F64.decode 0x3ff2666666666666) ∧
+    checkedAsF128 32 10 1 = some (Fixed.decode32 0x3dcccccd) ∧
+    checkedAsF64 64 10 90071992547409930 = none := by decide +kernel
 
 /-! ## non-vacuity -/
 example : fits64 (-(2^63)) = true ∧ fits128 (-(2^127)) = true := by decide
